@@ -67,6 +67,18 @@ impl MemStorage {
 }
 
 /// Classify a raw storage key by cw-storage-plus namespace (DESIGN.md appendix D).
+/// Storage namespaces of the pinned contracts (DESIGN Appendix D).  Raw-diff comparisons ("nothing else
+/// changed") range over these: a namespace the pinned code does not have is additional bookkeeping, which
+/// no property forbids.
+pub const KNOWN_NAMESPACES: [&str; 11] = [
+    "admin", "batches", "config", "contract_info", "ibc_waiting_for_reply", "inflight", "pending_batch_id", "state", "unstake_requests",
+    "unstake_requests_by_user", "unstake_requests__by_user",
+];
+
+pub fn known_namespace(ns: &str) -> bool {
+    KNOWN_NAMESPACES.contains(&ns)
+}
+
 pub fn key_namespace(key: &[u8]) -> String {
     if key.len() >= 2 {
         let n = u16::from_be_bytes([key[0], key[1]]) as usize;
